@@ -103,12 +103,17 @@ where
     let n: NonZero<Uint<M>> = *pk.get_n();
     let mut rs = seed_rng("secret", op, idx);
     let bits = Uint::<M>::BITS;
-    let mclass = idx % 5;
+    let mclass = idx % 8;
+    // classes 5..7: plaintexts placed relative to the key, m = -N^-1 mod 2^w — the low w bits of m*N are all ones (carry chains)
+    let key_relative = |w: usize| -> Uint<M> { let mask = Uint::<M>::ONE.shl_vartime(w).wrapping_sub(&Uint::ONE); n.inv_mod2k(w).wrapping_neg().bitand(&mask) };
     let m: Uint<M> = match mclass {
         0 => Uint::ZERO,
         1 => Uint::ONE,
         2 => Uint::ONE.shl_vartime(((7 * idx as usize + 3) % (bits - 2)) as usize),
         3 => n.wrapping_sub(&Uint::ONE),
+        5 => key_relative(64),
+        6 => key_relative(bits - 64),
+        7 => key_relative(bits / 2),
         _ => Uint::random_mod(&mut rs, &n),
     };
     let rclass = (idx / 5) % 3;
@@ -118,7 +123,7 @@ where
         _ => n.wrapping_sub(&Uint::ONE),
     };
     let mut desc = format!("bits={bits} key#{kix}({}) m-class={} r-class={}", if kix % 2 == 0 { "p<q" } else { "p>q" },
-                           ["0", "1", "2^k", "N-1", "random"][mclass as usize], ["random", "2", "N-1"][rclass as usize]);
+                           ["0", "1", "2^k", "N-1", "random", "-1/N mod 2^64", "-1/N mod 2^(bits-64)", "-1/N mod 2^(bits/2)"][mclass as usize], ["random", "2", "N-1"][rclass as usize]);
     let pm: RawPlaintext<M> = pk.into_message(&m).expect("m < N");
     match op {
         "encrypt_with_r" => {
